@@ -15,11 +15,10 @@
   * `c02_fuel_mono` fuel bounds recursion depth only: once `run` answers, every larger fuel gives the same
                     answer (so "terminates" means: some fuel suffices).
 
-  NOT proved (statement kept visible): `c02_terminates_STATEMENT` — that for every certified grammar some
-  fuel suffices.  The bound above is the key lemma of that proof (it bounds the second component of the
-  termination measure); what is missing is the well-founded descent itself.  On every run the harness
-  executes every generated certified grammar under a stack limit, a timeout and an activation probe that
-  aborts when the bound is exceeded; that part is bounded exploration and the evidence says so.
+  TERMINATION itself (`c02_terminates`: for every grammar accepted by the decidable certificate `wf` some
+  fuel suffices, from every reachable state) is proved in Props/C02T.lean.  On every run the harness also
+  executes every generated certified grammar on the real library under a stack limit, a timeout and an
+  activation probe that aborts when the bound is exceeded.
 -/
 import ParsleyVerif.Proofs.RunPos
 import ParsleyVerif.Proofs.RunMono
@@ -82,7 +81,7 @@ theorem c02_facts :
   ⟨rfl, rfl, rfl⟩
 
 /-
-  **C02 termination — full statement, NOT proved**:
+  **C02 termination — the statement as first written; proved (per call, not with a uniform F) as `c02_terminates` in Props/C02T.lean:**
 
     theorem c02_terminates_STATEMENT (cert) (wf : WF cert cfg.env g) (hpos : InFile cfg.file pos) :
         ∃ F, ∀ fuel ≥ F, ∀ ctx st, Reach st → (run { cfg with maxCalls := 0 } fuel g ctx pos st).isSome
